@@ -105,7 +105,13 @@ func genMarkupLineAt(tp *Tape, id string, allowFail, idLast bool) (string, bool)
 	}
 	if allowFail && tp.Chance(25, "failline") {
 		fails = true
-		sb.WriteString(" " + []string{"[a", "[a x=]", "[/zz]", `[a x="abc`, "[=]", "[a b]", "[plural value=x /]", "[", "[a x=1.5.2]", "[/"}[tp.Int(0, 9, "failkind")])
+		kinds := []string{"[a", "[a x=]", "[/zz]", `[a x="abc`, "[=]", "[a b]", "[plural value=x /]", "[", "[a x=1.5.2]", "[/",
+			// values that begin like a number, an identifier or a string and go wrong late: whatever the parser had
+			// collected by then must not reach the next line
+			"[big size=99999999999999999999]", "[big size=٣]", "[a n=12345678901234567890123 /]", "[a n=１２]", "[a=99999999999999999999]t[/a]",
+			"[a x=1.5e]", "[a x=-]", "[a x=1.]", `[a x="q\`, "[a x=tru]", "[a b=1 c=99999999999999999999 /]", "[a é=1]", "[wave٣ /]", "[a x=9223372036854775808]",
+			"[plural value=99999999999999999999 one=\"a\" other=\"b\" /]", "[ordinal value=٣ one=\"a\" other=\"b\" /]", "[a x=1.5 y=99999999999999999999.5 /]"}
+		sb.WriteString(" " + kinds[tp.Int(0, len(kinds)-1, "failkind")])
 	} else if len(open) > 0 && tp.Chance(70, "closeall") {
 		sb.WriteString("[/]")
 	}
